@@ -244,7 +244,9 @@ func (w *wildAPI) ConsumersFor(mediaTypes []string) map[string]runtime.Consumer 
 func (w *wildAPI) ServeErrorFor(string) func(http.ResponseWriter, *http.Request, error) {
 	return oerr.ServeError
 }
-func (w *wildAPI) ProducersFor(mt []string) map[string]runtime.Producer { return w.api.ProducersFor(mt) }
+func (w *wildAPI) ProducersFor(mt []string) map[string]runtime.Producer {
+	return w.api.ProducersFor(mt)
+}
 func (w *wildAPI) AuthenticatorsFor(s map[string]spec.SecurityScheme) map[string]runtime.Authenticator {
 	return w.api.AuthenticatorsFor(s)
 }
